@@ -38,6 +38,13 @@ pub struct Case {
     /// 0 default, 1 -0, 2 -d ','
     pub mode: u8,
     pub no_run_if_empty: bool,
+    /// outcome of the single argument-less invocation that empty input causes (without -r)
+    #[serde(default = "ok_outcome")]
+    pub bare: Oc,
+}
+
+fn ok_outcome() -> Oc {
+    Oc::Exit(0)
 }
 
 fn gen_outcome(g: &mut Gen) -> Oc {
@@ -63,7 +70,7 @@ pub fn gen_case(g: &mut Gen) -> Case {
     }
     let batch = g.weighted(&[5, 3, 2]) as u8;
     let k = if batch == 2 { 1 } else { g.usize_in(1, 3) };
-    Case { outcomes, k, batch, cmd: g.weighted(&[14, 1, 1, 1, 1]) as u8, mode: g.weighted(&[5, 2, 1]) as u8, no_run_if_empty: g.chance(1, 3) }
+    Case { outcomes, k, batch, cmd: g.weighted(&[14, 1, 1, 1, 1]) as u8, mode: g.weighted(&[5, 2, 1]) as u8, no_run_if_empty: g.chance(1, 3), bare: gen_outcome(g) }
 }
 
 pub fn script_of(o: &[Oc]) -> String {
@@ -164,7 +171,12 @@ pub fn check(ctx: &mut Ctx, c: &Case) -> Outcome {
     let runs_at_all = !c.outcomes.is_empty() || (!c.no_run_if_empty && c.batch != 2);
     let (want_status, want_started, started_known) = if c.cmd == 0 {
         if c.outcomes.is_empty() {
-            (0, if runs_at_all { 1 } else { 0 }, true)
+            if runs_at_all {
+                let (s, n) = automaton(std::slice::from_ref(&c.bare));
+                (s, n, true)
+            } else {
+                (0, 0, true)
+            }
         } else {
             let (s, n) = automaton(&c.outcomes);
             (s, n, true)
@@ -175,7 +187,8 @@ pub fn check(ctx: &mut Ctx, c: &Case) -> Outcome {
         (if c.cmd <= 2 { 127 } else { 126 }, 0, true)
     };
     // -I with empty input runs nothing (C20) - not asserted here beyond the status
-    let run = run_xargs(ctx, &opts, &cmd, &input, &script_of(&c.outcomes), BinOpts { clear_env: true, ..Default::default() });
+    let script = if c.outcomes.is_empty() { script_of(std::slice::from_ref(&c.bare)) } else { script_of(&c.outcomes) };
+    let run = run_xargs(ctx, &opts, &cmd, &input, &script, BinOpts { clear_env: true, ..Default::default() });
     let kind = match c.cmd {
         0 => "rec",
         1 | 2 => "missing-command",
@@ -200,6 +213,7 @@ pub fn check(ctx: &mut Ctx, c: &Case) -> Outcome {
         .class_if(want_status == 127, "status-127")
         .class_if(want_status == 0, "status-0")
         .class_if(c.outcomes.is_empty(), "empty-input")
+        .class_if(c.outcomes.is_empty() && runs_at_all && c.bare != Oc::Exit(0), "empty-input-invocation-fails")
         .class_if(c.batch == 2, "replace-mode")
         .sample(json!({"cmdline": format!("xargs {} {}", opts.iter().map(|o| o.to_string_lossy().into_owned()).collect::<Vec<_>>().join(" "), kind), "script": script_of(&c.outcomes), "status": want_status, "invocations": want_started}))
         .ok()
@@ -326,7 +340,7 @@ fn run(w: &mut Worker) {
                 o.push(classes[idx % classes.len()].clone());
                 idx /= classes.len();
             }
-            all.push(Case { outcomes: o, k: 1, batch: (all.len() % 2) as u8, cmd: 0, mode: 0, no_run_if_empty: false });
+            all.push(Case { outcomes: o, k: 1, batch: (all.len() % 2) as u8, cmd: 0, mode: 0, no_run_if_empty: false, bare: classes[all.len() % classes.len()].clone() });
         }
     }
     w.exhaustive("outcomes-short", &format!("all outcome sequences of length <= {maxlen} over 6 outcome classes"), all.into_iter(), check);
